@@ -418,12 +418,35 @@ func runC14Porcupine(rc *RunCtx, i int) {
 		var ops []porcupine.Operation
 		var wg sync.WaitGroup
 		var next atomic.Int64
+		// the store may already hold many files (hundreds: more than any internal page or batch
+		// size a store might iterate in); each client owns a slice of them to delete later
+		base := core.Pick(r, []int{0, 0, 30, 300, 700})
+		owned := make([][]string, clients)
+		if base > 0 {
+			in := pcInput{Update: true}
+			var ws []bs.WriteOperation
+			for k := 0; k < base; k++ {
+				p := fmt.Sprintf("b%04d", k)
+				in.Writes = append(in.Writes, p)
+				ws = append(ws, bs.WriteOperation{FileMetadata: &bs.FileMetadata{}, FilePointerBytes: []byte(p)})
+				owned[k%clients] = append(owned[k%clients], p)
+			}
+			call := clock.Add(1)
+			ms.Update(context.Background(), ws, nil)
+			ops = append(ops, porcupine.Operation{ClientId: 0, Input: in, Call: call, Output: "", Return: clock.Add(1)})
+			rc.Res.Count("porcupine_histories_over_large_store", 1)
+		}
 		for c := 0; c < clients; c++ {
 			cr := r.Split("client", h, c)
 			wg.Add(1)
 			go func(c int) {
 				defer wg.Done()
 				var mine []string
+				// delete from the far end first: what an iteration in progress has not reached yet
+				for lo, hi := 0, len(owned[c])-1; lo < hi; lo, hi = lo+1, hi-1 {
+					owned[c][lo], owned[c][hi] = owned[c][hi], owned[c][lo]
+				}
+				mine = append(mine, owned[c]...)
 				for k := 0; k < opsPer; k++ {
 					if cr.Chance(0.5) {
 						in := pcInput{Update: true}
